@@ -14,7 +14,10 @@ import time
 
 VERIF = os.path.dirname(os.path.dirname(os.path.abspath(__file__)))
 REPO = os.environ.get("XCP_REPO", "/repo")
-SCRATCH = {"ext4": "/var/tmp/xcp-verif", "tmpfs": "/dev/shm/xcp-verif"}
+# VERIF_SCRATCH_TAG isolates a run's scratch space and build output (used for background sweeps on a snapshot of /repo,
+# so that they are not disturbed by seeded changes applied to /repo in the foreground)
+_TAG = os.environ.get("VERIF_SCRATCH_TAG", "")
+SCRATCH = {"ext4": "/var/tmp/xcp-verif" + _TAG, "tmpfs": "/dev/shm/xcp-verif" + _TAG}
 TARGET = os.path.join(SCRATCH["ext4"], "target")
 PROBE_TARGET = os.path.join(SCRATCH["ext4"], "target-probes")
 XSUP = os.path.join(VERIF, "bin", "xsup")
@@ -91,8 +94,21 @@ def build_xcp():
 
 def build_probe(name):
     """Build /verif/probes/<name> against /repo's current tree; returns the binary path."""
-    pdir = os.path.join(VERIF, "probes", name)
+    src = os.path.join(VERIF, "probes")
+    pdir = os.path.join(SCRATCH["ext4"], "probes-src", name)
     with _Lock("probe-%s.lock" % name):
+        # build from a scratch copy so that /verif stays clean and the path dependencies follow REPO
+        os.makedirs(os.path.join(pdir, "src"), exist_ok=True)
+        os.makedirs(os.path.join(os.path.dirname(pdir), "common"), exist_ok=True)
+        def sync(a, b_, subst=False):
+            data = open(a).read()
+            if subst:
+                data = data.replace("/repo/", REPO.rstrip("/") + "/")
+            if not os.path.exists(b_) or open(b_).read() != data:
+                open(b_, "w").write(data)
+        sync(os.path.join(src, name, "Cargo.toml"), os.path.join(pdir, "Cargo.toml"), True)
+        sync(os.path.join(src, name, "src", "main.rs"), os.path.join(pdir, "src", "main.rs"))
+        sync(os.path.join(src, "common", "fsprobe.rs"), os.path.join(os.path.dirname(pdir), "common", "fsprobe.rs"))
         shutil.copyfile(os.path.join(REPO, "Cargo.lock"), os.path.join(pdir, "Cargo.lock"))
         env = dict(ENV)
         env["CARGO_TARGET_DIR"] = os.path.join(PROBE_TARGET, name)
